@@ -227,3 +227,26 @@ PROPS["C01"] = Prop(
     level_text=("exploration: sources x configurations are sampled; every successful load is checked by an oracle that shares no code with the "
                 "library's checker, and by the built-in checker (abort = violation)"),
 )
+
+
+PROPS["C07"] = Prop(
+    "C07",
+    [Stage("asan", "c07_synthetic", "asan", quick=30000, thorough=900000, env={"ASAN_OPTIONS_EXTRA": "max_allocation_size_mb=256"})],
+    rule=("index%3==0: a generator AST (typed levels, structural Group/Die/NUMA level, attached NUMA with sizes, explicit/sparse/"
+          "interleaved PU indexes) rendered and loaded with every type kept; widths, level order, PU-index partitions per level, cache "
+          "sizes, NUMA counts/memory/locality/attachment are compared with the AST's own expectation. index%3==1: hostile strings "
+          "(valid+token mutations, chains of 118-131 levels around the 128 limit, restricted alphabet, bytes) in exact-size heap blocks. "
+          "index%3==2: export with 3 random flag words: snprintf contract, reload, per-flag comparison table, fixpoint. "
+          "distinct+non-trivial = class 1: AST shapes with >= 4 levels or an index/attached clause; class 2: hostile input shape "
+          "classes; class 3: (topology shape, export flag word)"),
+    nontrivial_classes=[1, 2, 3], floor=300,
+    assumptions=COMMON_ASSUME + [
+        "faithfulness is demanded only for ASTs whose Group/Die/NUMA levels bring structure (arity in and out >= 2); others are safety+WF only",
+        "index orderings are checked as partitions of PU indexes per level (sibling order is by cpuset, not by creation)",
+        "descriptions whose arity product exceeds 20000 are parsed but not loaded; single allocations capped at 256 MiB",
+        "documented defaults checked: NUMA 1GiB, L1 32KiB, Ln 256KiB<<2n, single NUMA node when none is given"],
+    technique="runtime monitor: AST-expectation oracle, hostile strings in exact-size heap blocks, export contract/round-trip/fixpoint, under gcc ASan+UBSan+LSan",
+    level_text=("exploration: generated descriptions are compared with an expectation computed by the generator itself, hostile strings are "
+                "parsed from exact-size heap blocks (one byte over-read = ASan report), and every export is checked for the snprintf "
+                "contract, reload equality under the flag table of the property, and fixpoint"),
+)
